@@ -91,6 +91,17 @@ def run(ck: Check) -> None:
         gpg = bool(i % 2)
         role, u, t = near_miss_case(rng, gpg)
         cases.append(Case("vdeleg", [role, u, t, gpg], tag="near-miss-role", group=100000 + i))
+    # directed: the role asked for is "root", the trusted metadata is root metadata delegating root, the untrusted metadata is root metadata too — of the same,
+    # the next, an earlier or a far later version, with its own (met or unmet) root rule: a *delegation* check looks at the trusted rule and the type, nothing else
+    for i in range(ck.n(120, 24)):
+        gpg = bool(i % 2)
+        ks = [gen.key(j) for j in rng.sample(range(8), rng.randint(1, 3))]
+        v = rng.choice([1, 2, 7])
+        t = gen.envelope(gen.root_md(ks, len(ks), [gen.key(9)], 1, version=v))
+        own_keys = rng.choice([ks, [gen.key(8)], ks + [gen.key(8)]])
+        u = gen.envelope(gen.root_md(own_keys, rng.choice([1, len(own_keys)]), [gen.key(9)], 1, version=rng.choice([v, v, v + 1, max(1, v - 1), v + 5])))
+        gen.sign_env(u, ks if i % 3 else ks[:-1], gpg, rng)
+        cases.append(Case("vdeleg", ["root", u, t, gpg], tag="role-root-on-root-metadata", group=200000 + i))
     for i in range(ck.n(3000, 500)):
         gpg = bool(i % 2)
         role, u, t = deleg_case(rng, gpg)
